@@ -402,6 +402,9 @@ func (ltEngine) run(ctx *simrt.Ctx) *simrt.Violation {
 				simrt.Failf("pool refused a generated transaction unit: %s", why)
 			}
 			b.inPool[u] = true
+			if b.recv {
+				ctx.Fault("tx_arrives_late")
+			}
 			all := true
 			for _, x := range b.inPool {
 				all = all && x
@@ -435,6 +438,7 @@ func (ltEngine) run(ctx *simrt.Ctx) *simrt.Violation {
 				ctx.Probe("lt-delivered")
 				if !b.complete {
 					ctx.Probe("lt-missing-at-receipt")
+					ctx.Fault("tx_missing_at_receipt")
 				}
 				if b.hasGroup {
 					ctx.Probe("lt-with-group")
